@@ -349,7 +349,7 @@ func c20Run(c *lib.Ctx) {
 func init() {
 	lib.Register(&lib.Check{
 		ID: "C20", Level: "model_checking",
-		Rule:      "every query (all 1- and 2-word sequences over the lower-cased 22-word alphabet + 26 typo / NLP / non-ASCII queries + 5 stop-word-laden queries of up to 11 words + 6 queries naming a platform or its shell) x every case re-spelling (all 2^n patterns when the query has n<=6 (thorough: n<=9) cased letters, else lower/UPPER/Title/alternating/last-letter; plus, for letters with a second capital form such as k / KELVIN SIGN, the spelling with all of them and with the first of them in that form) x paths {lexical, NLP, fuzzy thr 0, fuzzy thr -30, NLP+fuzzy, cached (q then Q, served from q's entry, also compared with a fresh search of Q), suggestions; for queries of >=4 words also lexical with TopTermsCap 4 and NLP with TopTermsCap 5} x databases (all subsets of <=2 (thorough: <=3) of 10 pool entries incl. upper-case and non-ASCII text, the 40-entry database, a Cyrillic/Greek/Latin-1 database, a database with the NLP expansion vocabulary): answers must be bit-identical to the lower-case spelling's; 8 white-space paddings of every query (ASCII and Unicode blanks, leading / trailing / repeated) through ValidateQuery: the validated form is the plain query's, or else every path must answer both forms alike; process pairs (plain vs re-cased / padded command line) for `wtf <query>` on two databases and for `wtf pipeline <query>`. Letters re-cased only between ToLower/ToUpper forms that are mutually inverse and fold-equivalent. evaluations = searches; non-trivial = pairs with a non-empty answer",
+		Rule:      "every query (all 1- and 2-word sequences over the lower-cased 22-word alphabet + 26 typo / NLP / non-ASCII queries + 5 stop-word-laden queries of up to 11 words + 6 queries naming a platform or its shell) x every case re-spelling (all 2^n patterns when the query has n<=6 (thorough: n<=9) cased letters, else lower/UPPER/Title/alternating/last-letter; plus, for letters with a second capital form such as k / KELVIN SIGN, the spelling with all of them and with the first of them in that form) x paths {lexical, NLP, fuzzy thr 0, fuzzy thr -30, NLP+fuzzy, cached (q then Q, served from q's entry, also compared with a fresh search of Q), suggestions; for queries of >=4 words also lexical with TopTermsCap 4 and NLP with TopTermsCap 5} x databases (all subsets of <=2 (thorough: <=3) of 10 pool entries incl. upper-case and non-ASCII text, the 40-entry database, a Cyrillic/Greek/Latin-1 database, a database with the NLP expansion vocabulary): answers must be bit-identical to the lower-case spelling's; 8 white-space paddings of every query (ASCII and Unicode blanks, leading / trailing / repeated) through ValidateQuery: the validated form is the plain query's, or else every path must answer both forms alike; process pairs (plain vs re-cased / padded command line) for `wtf <query>` on two databases, also under a Turkish locale in the environment, and for `wtf pipeline <query>`. Letters re-cased only between ToLower/ToUpper forms that are mutually inverse and fold-equivalent. evaluations = searches; non-trivial = pairs with a non-empty answer",
 		Assume:    []string{"map order pinned, host pinned", "CLI-level padding and case pairs are checked at process level in C17"},
 		QuickSecs: 150, ThorSecs: 900,
 		Run: c20Run,
